@@ -6,10 +6,13 @@ import (
 	"errors"
 	"fmt"
 	"os"
+	"path/filepath"
 	"strings"
+	"time"
 
 	"github.com/thomasjungblut/go-sstables/simpledb"
 	"verif/internal/core"
+	"verif/internal/ktrace"
 	"verif/internal/sess"
 )
 
@@ -34,6 +37,7 @@ type c17Case struct {
 	Small  bool      `json:"small,omitempty"` // reduced alphabet
 	Only   []c17Call `json:"only,omitempty"`
 	Crash  *c02Case  `json:"crash,omitempty"`
+	FaultK int       `json:"fault_k,omitempty"` // 1-based index of the client (WAL) system call that fails
 }
 
 func c17Keys() [][]byte {
@@ -117,7 +121,21 @@ func c17CrashHalf(ctx *core.Ctx) error {
 			}
 		}
 	}
-	ctx.Ev.Bounds["crash_sessions"] = len(cases)
+	// I/O failure as the reason for the error: the k-th WAL system call of the client fails (EIO); the failing call
+	// must leave no trace - observed in process (Get after the failed call) and after recovery of the final image
+	nio := 0
+	for _, mem := range []uint64{90, 1 << 30} {
+		cfg := sess.Cfg{Mem: mem, Thresh: 10, Ratio: 0.2, RBuf: 4096, WBuf: 16}
+		for _, second := range []sess.Op{{Op: "put", K: "a", V: "y"}, {Op: "del", K: "a"}, {Op: "put", K: "b", V: "I80"}} {
+			ops := []sess.Op{{Op: "put", K: "a", V: "x"}, second, {Op: "get", K: "a"}, {Op: "get", K: "b"}, {Op: "put", K: "c", V: "x"}, {Op: "get", K: "a"}, {Op: "get", K: "b"}, {Op: "get", K: "c"}, {Op: "close"}}
+			for k := 0; k < 8; k++ {
+				cases = append(cases, core.J(c17Case{Crash: &c02Case{Name: "c17-io-error", Mode: "sync", Sess: mkDBSession(cfg, ops...)}, FaultK: k + 1}))
+				nio++
+			}
+		}
+	}
+	ctx.Ev.Bounds["io_error_sessions"] = nio
+	ctx.Ev.Bounds["crash_sessions"] = len(cases) - nio
 	ctx.Ev.Notes = append(ctx.Ev.Notes, "crash observation: 6 rejected calls (nil/empty key or value through either flavour) x {alone, after an accepted put, between two accepted puts} x memstore {90 B, 1 GiB}, run in a traced child; every directory image at a system-call boundary is recovered by a fresh process and must read as the reference without the rejected call")
 	rs := ctx.Pmap(cases)
 	ctx.Fold(rs, cases)
@@ -144,6 +162,9 @@ func c17ProgStr(p []c17Call) string {
 func (c c17) Case(w *core.WCtx, payload json.RawMessage) core.Result {
 	var cs c17Case
 	json.Unmarshal(payload, &cs)
+	if cs.Crash != nil && cs.FaultK > 0 {
+		return c.ioErrorCase(w, cs)
+	}
 	if cs.Crash != nil {
 		res := c02{"C02"}.Case(w, core.J(cs.Crash))
 		for i := range res.Viol {
@@ -391,4 +412,98 @@ func (c c17) runProgram(w *core.WCtx, prog []c17Call, r *core.Result) {
 			viol("call %d: string flavour returned %q, byte flavour %q for the same bytes", i, res[0].errs[i], res[1].errs[i])
 		}
 	}
+}
+
+// ioErrorCase: one client WAL system call fails; operations that returned an error must have no effect.
+func (c c17) ioErrorCase(w *core.WCtx, cs c17Case) core.Result {
+	var r core.Result
+	dir := w.Dir()
+	dbdir := filepath.Join(dir, "db")
+	mustMkdir(dbdir)
+	s := cs.Crash.Sess
+	sp := writeSession(dir, s)
+	tr := ktrace.Run(ktrace.Options{Dir: dbdir, Argv: []string{binPath("vchild"), "run", dbdir, sp},
+		Fault: &ktrace.Fault{Classes: []string{"client"}, K: cs.FaultK - 1, Errno: 5, AfterMarker: "OPENED",
+			// only the append of a mutation itself: a record write to an existing WAL file (not the 8-byte header of a new one).
+			// Failures of the WAL rotation that a Put triggers after it was applied are a different matter, see DESIGN.md 1.2
+			Filter: func(e ktrace.Event) bool { return e.Nr == "write" && e.Bytes != 8 }}, HangAfter: 10 * time.Second})
+	name := fmt.Sprintf("session [%s] with the client's WAL record write #%d after Open failing (EIO)", sessStr(s), cs.FaultK)
+	viol := func(f string, a ...any) {
+		if len(r.Viol) < 4 {
+			r.Viol = append(r.Viol, core.Violation{Desc: name + ": " + fmt.Sprintf(f, a...), Case: core.J(cs)})
+		}
+	}
+	if tr.Err != nil {
+		viol("tracer: %v", tr.Err)
+		return r
+	}
+	var failed *ktrace.Event
+	for i := range tr.Events {
+		if tr.Events[i].Failed {
+			failed = &tr.Events[i]
+		}
+	}
+	if failed == nil {
+		r.Outcome = "fault position beyond the last client call"
+		return r
+	}
+	r.Traces++
+	r.Trans = int64(len(tr.Events))
+	r.Key = core.HashKey(name)
+	// walk the markers: reference = operations that were acknowledged; every Get must agree with it
+	ref := map[string]string{}
+	rejected := 0
+	for _, e := range tr.Events {
+		if e.Kind != "marker" {
+			continue
+		}
+		var i int
+		switch {
+		case strings.HasPrefix(e.Marker, "A "):
+			fmt.Sscanf(e.Marker, "A %d", &i)
+			op := s.Ops[i]
+			if op.Op == "put" {
+				ref[op.K] = dumpEncode(sess.Value(op.V))
+			} else if op.Op == "del" {
+				delete(ref, op.K)
+			}
+		case strings.HasPrefix(e.Marker, "E "):
+			rejected++
+		case strings.HasPrefix(e.Marker, "G "):
+			parts := strings.SplitN(e.Marker, " ", 3)
+			fmt.Sscan(parts[1], &i)
+			want, ok := ref[s.Ops[i].K]
+			got := parts[2]
+			r.Evals++
+			if (!ok && got != "-") || (ok && got != "="+want) {
+				viol("Get(%s) after %d call(s) returned an error reads %q, the reference without the failed call(s) says %q (found=%v)", s.Ops[i].K, rejected, got, want, ok)
+			}
+		}
+	}
+	if r.Extra == nil {
+		r.Extra = map[string]int64{}
+	}
+	r.Extra[fmt.Sprintf("io_error_runs_with_%d_rejected_calls", rejected)]++
+	if tr.Hung {
+		viol("the process neither stopped nor returned after the injected failure of %s %s", failed.Nr, failed.Path)
+		return r
+	}
+	// and after recovery of what is on disk
+	sits := situations(tr)
+	final := sits[len(sits)-1]
+	d, exit, stderr, err := recoverImage(tr, tr.Images[tr.FinalImage], filepath.Join(dir, "rec"), crashKeys)
+	r.Evals++
+	switch {
+	case err != nil:
+		viol("harness: %v", err)
+	case exit != 0 || d.OpenErr != "":
+		viol("after the failed call the directory cannot be re-opened: exit %d %s %s", exit, d.OpenErr, stderr)
+	default:
+		ok, wants := c02{"C02"}.acceptable(c02Case{Mode: "sync", Sess: s}, final, dumpMap(d))
+		if !ok {
+			viol("after recovery the directory reads %s, acceptable: %s", mapStr(dumpMap(d)), strings.Join(wants, " or "))
+		}
+	}
+	r.Outcome = fmt.Sprintf("io-error rejected=%d", rejected)
+	return r
 }
